@@ -260,8 +260,16 @@ func Build(s Stream) ([]byte, error) {
 		return nil, err
 	}
 	const base = 900000 // 10 s
+	npcr := 0
 	write := func(pid uint16, pts int, data []byte) error {
-		_, err := mx.WriteData(&astits.MuxerData{PID: pid, PES: &astits.PESData{
+		// the PCR PID carries a programme clock reference on another time base than the presentation time stamps:
+		// cue times are presentation times
+		var af *astits.PacketAdaptationField
+		if pid == PidA {
+			npcr++
+			af = &astits.PacketAdaptationField{HasPCR: true, PCR: &astits.ClockReference{Base: int64(1234 + npcr*31000)}}
+		}
+		_, err := mx.WriteData(&astits.MuxerData{PID: pid, AdaptationField: af, PES: &astits.PESData{
 			Header: &astits.PESHeader{StreamID: astits.StreamIDPrivateStream1, OptionalHeader: &astits.PESOptionalHeader{
 				MarkerBits: 2, PTSDTSIndicator: astits.PTSDTSIndicatorOnlyPTS, PTS: &astits.ClockReference{Base: int64(base + pts)}}},
 			Data: data}})
